@@ -348,3 +348,73 @@ Proof.
   - intros HT. destruct r as [|b r']; [exact I|]. destruct HA as [HA _]. rewrite HT in HA. cbn [andb] in HA.
     destruct (render_tok_starts_lt b HA) as [x Ex]. cbn [render_toks flat_map]. rewrite Ex. reflexivity.
 Qed.
+
+(* ---- the recursive descent over tokens gives back the tree ------------------------------------------------ *)
+Lemma toks_kids_fix pm l :
+  (fix go (l : list node) : list token := match l with [] => [] | k :: r => toks_node pm k ++ go r end) l = toks_kids pm l.
+Proof. induction l as [|k r IH]; [reflexivity|]. cbn [toks_kids flat_map]. rewrite IH. reflexivity. Qed.
+Lemma resolves_fix e pm l :
+  (fix all (l : list node) : Prop := match l with [] => True | k :: r => resolves e pm k /\ all r end) l
+  <-> all_resolve e pm l.
+Proof.
+  unfold all_resolve. induction l as [|k r IH]; [split; [constructor | exact (fun _ => I)]|].
+  split.
+  - intros [H1 H2]. constructor; [exact H1 | apply IH; exact H2].
+  - intros H. inversion H; subst. split; [assumption | apply IH; assumption].
+Qed.
+
+Lemma toks_kids_cons pm k r : toks_kids pm (k :: r) = toks_node pm k ++ toks_kids pm r.
+Proof. reflexivity. Qed.
+Lemma toks_node_tag_empty pm ns name attrs :
+  toks_node pm (Tag ns name attrs []) = [TStart (qname pm ns name) (tok_attrs pm attrs) true].
+Proof. reflexivity. Qed.
+Lemma toks_node_tag_kids pm ns name attrs k0 kids' :
+  toks_node pm (Tag ns name attrs (k0 :: kids')) =
+  TStart (qname pm ns name) (tok_attrs pm attrs) false :: toks_kids pm (k0 :: kids') ++ [TEnd (qname pm ns name)].
+Proof. cbn [toks_node null]. rewrite toks_kids_fix. reflexivity. Qed.
+
+Theorem read_kids_toks e pm : forall fuel ks rest,
+  all_resolve e pm ks -> tail_ok rest -> length (toks_kids pm ks) < fuel ->
+  read_kids fuel e (toks_kids pm ks ++ rest) = Some (ks, rest).
+Proof.
+  induction fuel as [|f IH]; intros ks rest HR HT HF; [lia|].
+  destruct ks as [|k r].
+  - cbn [toks_kids flat_map app]. destruct HT as [->|[q [r' ->]]]; reflexivity.
+  - inversion HR as [|? ? Hk Hr]; subst.
+    rewrite toks_kids_cons in HF |- *. rewrite app_length in HF.
+    destruct k as [ns name attrs kids|s|s|t c].
+    + cbn [resolves] in Hk. destruct Hk as [HO HK]. apply resolves_fix in HK.
+      destruct kids as [|k0 kids'].
+      * rewrite toks_node_tag_empty in HF |- *. cbn [app length] in HF |- *. cbn [read_kids]. rewrite HO.
+        rewrite IH by (try assumption; lia). reflexivity.
+      * rewrite toks_node_tag_kids in HF |- *. rewrite <- app_assoc. set (kids := k0 :: kids') in *. set (q := qname pm ns name) in *.
+        cbn [length] in HF. rewrite app_length in HF. cbn [length] in HF.
+        cbn [app]. cbn [read_kids]. rewrite HO. rewrite <- (app_assoc (toks_kids pm kids) [TEnd q]). cbn [app].
+        rewrite (IH kids (TEnd q :: toks_kids pm r ++ rest)) by
+          (try assumption; try (right; eexists _, _; reflexivity); lia).
+        rewrite str_eqb_refl. rewrite IH by (try assumption; lia). reflexivity.
+    + cbn [toks_node app length] in HF |- *. cbn [read_kids]. rewrite IH by (try assumption; lia). reflexivity.
+    + cbn [toks_node app length] in HF |- *. cbn [read_kids]. rewrite IH by (try assumption; lia). reflexivity.
+    + cbn [toks_node app length] in HF |- *. cbn [read_kids]. rewrite IH by (try assumption; lia). reflexivity.
+Qed.
+
+(* ---- composition: lexing then descending, for a token stream that needs no declarations ------------------ *)
+Lemma render_toks_length toks : Forall tok_ok toks -> length toks <= length (render_toks toks).
+Proof.
+  induction 1 as [|t r Ht _ IH]; [cbn; lia|]. cbn [render_toks flat_map length]. rewrite app_length.
+  pose proof (render_tok_nonempty t Ht) as NE. destruct (render_tok t); [contradiction|]. cbn [length].
+  unfold render_toks in IH. lia.
+Qed.
+
+Theorem parse_render_toks pm t :
+  is_tag t = true -> resolves initial_env pm t ->
+  Forall tok_ok (toks_node pm t) -> no_adj_ttext (toks_node pm t) ->
+  parse (render_toks (toks_node pm t)) = Some (merge_tree t).
+Proof.
+  intros HT HR HO HA. unfold parse.
+  rewrite lex_render; [|exact HO|exact HA|pose proof (render_toks_length _ HO); lia].
+  pose proof (read_kids_toks initial_env pm (S (length (toks_node pm t))) [t] []) as RK.
+  cbn [toks_kids flat_map] in RK. rewrite !app_nil_r in RK.
+  rewrite RK; [|constructor; [exact HR | constructor] | left; reflexivity | lia].
+  destruct t; try discriminate. reflexivity.
+Qed.
